@@ -20,18 +20,19 @@ import (
 )
 
 type Obligation struct {
-	Name     string
-	Func     string
-	Kind     string // ensures, requires, loop-init, loop-preserve, site, safety, lemma, modifies, cover, smoke, goframe, frame
-	PC       string
-	Goal     string
-	Src      string
-	Props    []string
-	WantSat  bool // vacuity guard: query (pc) must be satisfiable
-	Prelude  *VC
-	Extra    string // extra declarations after prelude
-	Result   *SolveResult
-	ReplayFn string
+	Name           string
+	Func           string
+	Kind           string // ensures, requires, loop-init, loop-preserve, site, safety, lemma, modifies, cover, smoke, goframe, frame
+	PC             string
+	Goal           string
+	Src            string
+	Props          []string
+	WantSat        bool // vacuity guard: query (pc) must be satisfiable
+	ExpectedToFail bool // listed in known_findings.txt as known: (short solver budget)
+	Prelude        *VC
+	Extra          string // extra declarations after prelude
+	Result         *SolveResult
+	ReplayFn       string
 }
 
 // State maps state components (heap regions, ghost variables, $alloc) to SMT terms. Components that have not been
@@ -577,37 +578,38 @@ type retPoint struct {
 }
 
 type Frame struct {
-	vc          *VC
-	fn          *ssa.Function
-	prefix      string
-	vals        map[ssa.Value][]string
-	locs        map[ssa.Value]*Loc
-	closures    map[ssa.Value]*ssa.MakeClosure
-	c           *FuncContract
-	top         bool
-	defers      []*deferRec
-	rets        []retPoint
-	entry       *State
-	parent      *Frame
-	freeVals    map[*ssa.FreeVar][]string
-	freeLocs    map[*ssa.FreeVar]*Loc
-	freeClos    map[*ssa.FreeVar]*ssa.MakeClosure
-	loops       []*loopInfo
-	loopOf      map[*ssa.BasicBlock]*loopInfo // header -> loop
-	blockPC     map[*ssa.BasicBlock]string
-	blockSt     map[*ssa.BasicBlock]*State
-	edgePC      map[[2]int]string
-	applyMC     *ssa.MakeClosure     // closure value whose contract is being applied at the current call site
-	iterVis     map[ssa.Value]string // range-over-map iterator -> state key of visited set
-	iterMap     map[ssa.Value]ssa.Value
-	callOrd     map[string]int
-	specEnv     *SpecEnv
-	args        [][]string
-	privAlloc   map[*ssa.Alloc]bool
-	initGlobals []*ssa.Global
-	lookupIn    *lookupInfo
-	closureCell map[*ssa.Alloc]*ssa.MakeClosure
-	privHeaps   map[string]bool // slice-element heaps whose arrays allocated here never escape (type-based)
+	vc            *VC
+	fn            *ssa.Function
+	prefix        string
+	vals          map[ssa.Value][]string
+	locs          map[ssa.Value]*Loc
+	closures      map[ssa.Value]*ssa.MakeClosure
+	c             *FuncContract
+	top           bool
+	defers        []*deferRec
+	rets          []retPoint
+	entry         *State
+	parent        *Frame
+	freeVals      map[*ssa.FreeVar][]string
+	freeLocs      map[*ssa.FreeVar]*Loc
+	freeClos      map[*ssa.FreeVar]*ssa.MakeClosure
+	loops         []*loopInfo
+	loopOf        map[*ssa.BasicBlock]*loopInfo // header -> loop
+	blockPC       map[*ssa.BasicBlock]string
+	blockSt       map[*ssa.BasicBlock]*State
+	edgePC        map[[2]int]string
+	inlinedHelper bool                 // frame of a repository helper executed symbolically inside the function under verification
+	applyMC       *ssa.MakeClosure     // closure value whose contract is being applied at the current call site
+	iterVis       map[ssa.Value]string // range-over-map iterator -> state key of visited set
+	iterMap       map[ssa.Value]ssa.Value
+	callOrd       map[string]int
+	specEnv       *SpecEnv
+	args          [][]string
+	privAlloc     map[*ssa.Alloc]bool
+	initGlobals   []*ssa.Global
+	lookupIn      *lookupInfo
+	closureCell   map[*ssa.Alloc]*ssa.MakeClosure
+	privHeaps     map[string]bool // slice-element heaps whose arrays allocated here never escape (type-based)
 }
 
 type loopInfo struct {
